@@ -54,7 +54,7 @@ case(C + "view_truth", params={"d": D}, returns=INT,
      gen=lambda rng: {"d": sdict(rng)})
 
 # ---- set(list), comprehensions over sequences -----------------------------------------------------------------------------------
-case(C + "set_of_list", params={"xs": List(INT)}, returns=Set(INT),
+case(C + "set_of_list", params={"xs": List(INT)}, returns=Set(INT), seq_positions=True,
      ensures={"in": "all(x in result for x in xs)", "only": "all(x in xs for x in result)"}, canaries={"empty": "result == set()", "has0": "0 in result"},
      gen=lambda rng: {"xs": ints(rng)})
 case(C + "names_of", params={"xs": List(INT)}, returns=Set(INT),
@@ -73,14 +73,12 @@ case(C + "square_map", params={"xs": List(INT)}, returns=Dict(INT, INT),
      ensures={"dom": "all(x in result and result[x] == x * x for x in xs)", "only": "all(k in xs for k in result)"},
      canaries={"id": "all(result[x] == x for x in xs)", "empty": "len(result) == 0"},
      gen=lambda rng: {"xs": ints(rng)})
-case(C + "rekey", params={"d": Dict(INT, INT)}, returns=Dict(INT, INT),
-     ensures={"dom": "all(k + 1 in result and result[k + 1] == d[k] for k in d)", "only": "all(k - 1 in d for k in result)"},
+case(C + "rekey", params={"d": Dict(INT, INT)}, returns=Dict(INT, INT), dict_key_positions=True,
+     ensures={"only": "all(k - 1 in d for k in result)", "val": "all(result[k] == d[k - 1] for k in result)"},
      canaries={"same-keys": "all(k in result for k in d)", "empty": "len(result) == 0", "zero": "all(result[k] == 0 for k in result)"},
      gen=lambda rng: {"d": idict(rng)})
-case(C + "rekey_collide", params={"d": Dict(INT, INT)}, returns=Dict(INT, INT), requires=["all(k >= 0 for k in d)"],
-     ensures={"dom": "all(k // 2 in result for k in d)", "only": "all(2 * j in d or 2 * j + 1 in d for j in result)",
-              "val": "all(implies(2 * j in d and 2 * j + 1 not in d, result[j] == d[2 * j]) for j in result)",
-              "from": "all((2 * j in d and result[j] == d[2 * j]) or (2 * j + 1 in d and result[j] == d[2 * j + 1]) for j in result)"},
+case(C + "rekey_collide", params={"d": Dict(INT, INT)}, returns=Dict(INT, INT), requires=["all(k >= 0 for k in d)"], dict_key_positions=True,
+     ensures={"dom": "all(k // 2 in result for k in d)", "from": "all((2 * j in d and result[j] == d[2 * j]) or (2 * j + 1 in d and result[j] == d[2 * j + 1]) for j in result)"},
      # FALSE: when both 2j and 2j+1 are keys the LATER one (in insertion order) wins, not always the even one
      canaries={"even-wins": "all(implies(2 * j in d, result[j] == d[2 * j]) for j in result)", "empty": "len(result) == 0"},
      gen=lambda rng: {"d": idict(rng)})
@@ -94,6 +92,11 @@ case(C + "empty_lists", params={"xs": List(INT)}, returns=Dict(INT, List(INT)), 
      ensures={"dom": "all(x in result and len(result[x]) == 0 for x in xs)", "only": "all(k in xs for k in result)"},
      canaries={"one": "all(len(result[x]) == 1 for x in xs) and len(xs) > 0", "empty": "len(result) == 0"},
      gen=lambda rng: {"xs": ints(rng)})
+
+case(C + "has", params={"xs": List(INT), "x": INT}, returns=BOOL, seq_positions=True,
+     ensures={"wit": "implies(result, any(xs[i] == x for i in range(len(xs))))", "conv": "implies(any(xs[i] == x for i in range(len(xs))), result)"},
+     canaries={"first": "implies(result, xs[0] == x)", "never": "not result"},
+     gen=lambda rng: {"xs": ints(rng), "x": rng.randint(-3, 3)})
 
 # ---- {**a, **b} -----------------------------------------------------------------------------------------------------------------
 case(C + "merge", params={"a": D, "b": D}, returns=D,
